@@ -383,8 +383,7 @@ Lemma prun_done s c rest o : pstep s c = Done o -> prun s (c :: rest) = o.
 Proof. intros H. simpl. rewrite H. reflexivity. Qed.
 
 (* clean state: nothing pending *)
-Definition st (t : arena) (idx : option nat) (stk : list nat) (op : nat) : pstate :=
-  mkP t FName None None None idx stk op false.
+Notation st t idx stk op := (mkP t FName None None None idx stk op false).
 
 Lemma safe_facts c : safe_char c ->
   ((c =? ch_lpar) = false /\ (c =? ch_rpar) = false /\ (c =? ch_comma) = false /\ (c =? ch_semi) = false /\
@@ -554,6 +553,350 @@ Lemma commit_idx (s : pstate) k idx nm ln cm :
 Proof.
   intros Hi [n [Hn Hd]] Hnm Hln Hok Hcm. rewrite commit_unfold, Hi.
   unfold relabel. rewrite Hn. eapply with_node_ok; eauto.
+Qed.
+
+(* ================================================================================================ *)
+(* Part 4: big-step simulation: printed subtrees drive the state machine to [graft]                  *)
+(* ================================================================================================ *)
+Lemma step_comma (t : arena) f nm ln cm idx stk op : f <> FComment ->
+  pstep (mkP t f nm ln cm idx stk op false) ch_comma =
+  commit parse_len (mkP t f nm ln cm idx stk op false)
+         (fun t' => Running (mkP t' FName None None None None stk op false)).
+Proof. destruct f; [reflexivity|reflexivity|congruence]. Qed.
+
+Lemma step_rpar (t : arena) f nm ln cm idx stk op : f <> FComment ->
+  pstep (mkP t f nm ln cm idx stk op false) ch_rpar =
+  commit parse_len (mkP t f nm ln cm idx stk (op - 1) false)
+         (fun t' => match stk with
+                    | parent :: rest => Running (mkP t' FName None None None (Some parent) rest (op - 1) false)
+                    | [] => Done (Err NoSubtreeParent)
+                    end).
+Proof. destruct f; [reflexivity|reflexivity|congruence]. Qed.
+
+Lemma step_lpar (t : arena) p stk op : live t p ->
+  pstep (st t None (p :: stk) op) ch_lpar = Running (st (new_child t p) None (length t :: p :: stk) (S op)).
+Proof.
+  intros Hl.
+  change (pstep (st t None (p :: stk) op) ch_lpar)
+    with (lift_run (add_child t (new_node None None) p None) (fun r =>
+            Running (mkP (fst r) FName None None None None (snd r :: p :: stk) (S op) false))).
+  rewrite add_child_new by exact Hl. reflexivity.
+Qed.
+
+Lemma step_lpar_root op :
+  pstep (st [] None [] op) ch_lpar = Running (st [root0] None [0] (S op)).
+Proof. reflexivity. Qed.
+
+(* liveness is kept by the construction *)
+Lemma live_new_child_q (t : arena) p : live t p -> live (new_child t p) (length t).
+Proof. intros Hl. eexists. split; [apply new_child_nth; auto|reflexivity]. Qed.
+
+Lemma live_graft (t : arena) p r : live t p -> live (graft t p r) p.
+Proof.
+  intros [pn [Hpn Hd]]. rewrite (graft_spec r t p pn Hpn).
+  exists (addc pn (length t)). split; [|exact Hd].
+  rewrite nth_error_app1 by (rewrite rn_length; apply (nth_Some_lt Hpn)).
+  apply nth_rn_eq. apply (nth_Some_lt Hpn).
+Qed.
+
+Lemma all_graft_ok cs : Forall graft_ok cs.
+Proof. apply Forall_forall. intros; apply graft_spec. Qed.
+
+Lemma live_graft_list (t : arena) q cs : live t q -> live (graft_list q cs t) q.
+Proof.
+  intros [nq [Hq Hd]]. rewrite (graft_list_spec cs (all_graft_ok cs) t q nq Hq).
+  eexists. split.
+  - rewrite nth_error_app1 by (rewrite rn_length; apply (nth_Some_lt Hq)).
+    apply nth_rn_eq. apply (nth_Some_lt Hq).
+  - exact Hd.
+Qed.
+
+Definition sim_ok (r : ltree) : Prop :=
+  forall (t : arena) p stk op rest, live t p ->
+    prun (st t None (p :: stk) op) (lprint r ++ ch_comma :: rest) =
+    prun (st (graft t p r) None (p :: stk) op) rest
+    /\
+    prun (st t None (p :: stk) op) (lprint r ++ ch_rpar :: rest) =
+    prun (st (graft t p r) (Some p) stk (op - 1)) rest.
+
+Lemma sim_children q cs :
+  Forall (fun c => labels_ok c -> sim_ok c) cs -> Forall labels_ok cs -> cs <> [] ->
+  forall (t1 : arena) stk op rest, live t1 q ->
+    prun (st t1 None (q :: stk) op) (pdelim cs ++ rest) =
+    prun (st (graft_list q cs t1) (Some q) stk (op - 1)) rest.
+Proof.
+  induction 1 as [|c cs Hc Hcs IH]; intros Hok Hne t1 stk op rest Hl; [congruence|].
+  inversion Hok as [|? ? Hokc Hokcs]; subst.
+  destruct (Hc Hokc t1 q stk op) with (rest := rest) as [_ Hlast]; [exact Hl|].
+  destruct cs as [|c' cs].
+  - cbn [pdelim graft_list]. rewrite <- app_assoc. exact Hlast.
+  - change (pdelim (c :: c' :: cs)) with (lprint c ++ ch_comma :: pdelim (c' :: cs)).
+    rewrite <- app_assoc, <- app_comm_cons.
+    destruct (Hc Hokc t1 q stk op (pdelim (c' :: cs) ++ rest) Hl) as [Hmid _].
+    rewrite Hmid. cbn [graft_list].
+    apply (IH Hokcs); [discriminate|]. apply live_graft; auto.
+Qed.
+
+Lemma sim : forall r, labels_ok r -> sim_ok r.
+Proof.
+  induction r as [nm ln cm cs IH] using ltree_ind'. intros Hok.
+  inversion Hok as [? ? ? ? Hnm Hln Hcm Hcs]; subst.
+  intros t p stk op rest Hl. rewrite lprint_eq, graft_eq.
+  destruct cs as [|c cs'].
+  - (* a leaf: the delimiter creates the slot and commits the label *)
+    cbn [graft_list]. rewrite !run_label by auto. split.
+    + erewrite prun_step; [reflexivity|]. rewrite step_comma by apply lab_field_ok.
+      rewrite (commit_new _ _ p stk nm ln cm) by (auto; reflexivity). reflexivity.
+    + erewrite prun_step; [reflexivity|]. rewrite step_rpar by apply lab_field_ok.
+      rewrite (commit_new _ _ p stk nm ln cm) by (auto; reflexivity). reflexivity.
+  - (* an inner node *)
+    remember (c :: cs') as cs eqn:Ecs.
+    assert (Hne : cs <> []) by (subst; discriminate).
+    assert (Hq : live (graft_list (length t) cs (new_child t p)) (length t)).
+    { apply live_graft_list. apply live_new_child_q. auto. }
+    replace (match cs with [] => label nm ln cm | _ :: _ => ch_lpar :: pdelim cs ++ label nm ln cm end)
+      with (ch_lpar :: pdelim cs ++ label nm ln cm) by (subst; reflexivity).
+    rewrite <- !app_comm_cons, <- !app_assoc.
+    erewrite !prun_step by (apply step_lpar; exact Hl).
+    rewrite !(sim_children (length t) cs IH Hcs Hne) by (apply live_new_child_q; auto).
+    cbn [Nat.sub]. rewrite Nat.sub_0_r. rewrite !run_label by auto. split.
+    + erewrite prun_step; [reflexivity|]. rewrite step_comma by apply lab_field_ok.
+      rewrite (commit_idx _ _ (length t) nm ln cm) by (auto; reflexivity). reflexivity.
+    + erewrite prun_step; [reflexivity|]. rewrite step_rpar by apply lab_field_ok.
+      rewrite (commit_idx _ _ (length t) nm ln cm) by (auto; reflexivity). reflexivity.
+Qed.
+
+(* ================================================================================================ *)
+(* Part 5: the whole text: from_newick (lprint r ++ ";") = finishing pass on [build r]               *)
+(* ================================================================================================ *)
+Definition wrap (o : outcome arena) : outcome arena :=
+  match o with
+  | Ok t' => Ok t'
+  | Err _ => Err NwTreeError
+  | Panic x => Panic x
+  | OutOfFuel => OutOfFuel
+  end.
+
+Lemma step_semi_idx (t : arena) f nm ln cm idx stk n :
+  f <> FComment -> nth_error t idx = Some n -> ndeleted n = false -> len_ok ln ->
+  pstep (mkP t f nm (option_map print_len ln) cm (Some idx) stk 0 false) ch_semi =
+  Done (wrap (finish (replace_nth idx (root_label nm ln cm n) t))).
+Proof.
+  intros Hf Hn Hd Hok.
+  assert (E : pstep (mkP t f nm (option_map print_len ln) cm (Some idx) stk 0 false) ch_semi =
+    lift_run (get t idx) (fun n0 : node =>
+        let n1 := set_ncomment (set_nname n0 nm) cm in
+        match (match option_map print_len ln with
+               | Some ls => match parse_len ls with Some v => Some (set_npedge n1 (Some v)) | None => None end
+               | None => Some n1
+               end) with
+        | None => Done (Err FloatError)
+        | Some n2 =>
+            match finish (replace_nth idx n2 t) with
+            | Ok t' => Done (Ok t')
+            | Err _ => Done (Err NwTreeError)
+            | Panic x => Done (Panic x)
+            | OutOfFuel => Done OutOfFuel
+            end
+        end)) by (destruct f; [reflexivity|reflexivity|congruence]).
+  rewrite E. unfold get. rewrite Hn, Hd. simpl lift_run. cbv zeta.
+  unfold root_label, wrap. destruct ln as [l|]; simpl option_map; cbv iota.
+  - simpl in Hok. rewrite (H1 l Hok).
+    destruct (finish (replace_nth idx (set_npedge (set_ncomment (set_nname n nm) cm) (Some l)) t)); reflexivity.
+  - destruct (finish (replace_nth idx (set_ncomment (set_nname n nm) cm) t)); reflexivity.
+Qed.
+
+Lemma step_semi_new f nm (ln : option str) cm : f <> FComment ->
+  pstep (mkP [] f nm ln cm None [] 0 false) ch_semi =
+  pstep (mkP [root0] f nm ln cm (Some 0) [] 0 false) ch_semi.
+Proof. destruct f; [reflexivity|reflexivity|congruence]. Qed.
+
+Lemma live_root0 : live [root0] 0.
+Proof. exists root0. split; reflexivity. Qed.
+
+Theorem parse_print_eq r : labels_ok r ->
+  from_newick parse_len (lprint r ++ [ch_semi]) = wrap (finish (build r)).
+Proof.
+  intros Hok. destruct r as [nm ln cm cs].
+  inversion Hok as [? ? ? ? Hnm Hln Hcm Hcs]; subst.
+  unfold from_newick, p_init. rewrite lprint_eq. destruct cs as [|c cs'].
+  - rewrite run_label by auto. erewrite prun_done; [reflexivity|].
+    rewrite step_semi_new by apply lab_field_ok.
+    rewrite (step_semi_idx [root0] _ nm ln cm 0 [] root0) by (auto using lab_field_ok).
+    reflexivity.
+  - remember (c :: cs') as cs eqn:Ecs.
+    assert (Hne : cs <> []) by (subst; discriminate).
+    replace (match cs with [] => label nm ln cm | _ :: _ => ch_lpar :: pdelim cs ++ label nm ln cm end)
+      with (ch_lpar :: pdelim cs ++ label nm ln cm) by (subst; reflexivity).
+    rewrite <- app_comm_cons, <- app_assoc.
+    erewrite prun_step by apply step_lpar_root.
+    rewrite (sim_children 0 cs) by
+      (auto using live_root0; apply Forall_forall; intros; apply sim; auto).
+    cbn [Nat.sub]. rewrite run_label by auto. erewrite prun_done; [reflexivity|].
+    destruct (live_graft_list [root0] 0 cs live_root0) as [n [Hn Hd]].
+    rewrite (step_semi_idx _ _ nm ln cm 0 [] n) by (auto using lab_field_ok).
+    unfold build. rewrite Hn. reflexivity.
+Qed.
+
+(* ================================================================================================ *)
+(* Part 6: what [build r] looks like: representation with labels, and the finishing pass             *)
+(* ================================================================================================ *)
+
+(* SRep t p d sk r : slot (rid sk) of t is the root of a subtree of shape sk (ids included) carrying the
+   labels of r; like Rep without the edge-mirror clauses, plus names / lengths / comments *)
+Inductive SRep (t : arena) : option nat -> nat -> rtree -> ltree -> Prop :=
+| SRep_node : forall p d i n nm ln cm sks cs,
+    nth_error t i = Some n -> ndeleted n = false -> nid n = i -> nparent n = p -> ndepth n = d ->
+    nname n = nm -> npedge n = ln -> ncomment n = cm -> nchildren n = map rid sks ->
+    Forall2 (SRep t (Some i) (S d)) sks cs ->
+    SRep t p d (RT i sks) (LT nm ln cm cs).
+
+(* LRep t p d i r : the same without recording ids (they are whatever the arena says) *)
+Inductive LRep (t : arena) : option nat -> nat -> nat -> ltree -> Prop :=
+| LRep_node : forall p d i n nm ln cm cs,
+    nth_error t i = Some n -> ndeleted n = false -> nid n = i -> nparent n = p -> ndepth n = d ->
+    nname n = nm -> npedge n = ln -> ncomment n = cm ->
+    Forall2 (LRep t (Some i) (S d)) (nchildren n) cs ->
+    LRep t p d i (LT nm ln cm cs).
+
+Lemma Forall2_Forall_impl {A B} (R R' : A -> B -> Prop) l l' :
+  Forall2 R l l' -> Forall (fun b => forall a, R a b -> R' a b) l' -> Forall2 R' l l'.
+Proof. induction 1; intros HF; inversion HF; subst; constructor; auto. Qed.
+
+Lemma Forall2_map_l {A B C} (R : C -> B -> Prop) (f : A -> C) l l' :
+  Forall2 (fun a b => R (f a) b) l l' -> Forall2 R (map f l) l'.
+Proof. induction 1; simpl; constructor; auto. Qed.
+
+Lemma SRep_LRep (t : arena) : forall r sk p d, SRep t p d sk r -> LRep t p d (rid sk) r.
+Proof.
+  induction r as [nm ln cm cs IH] using ltree_ind'. intros sk p d H.
+  inversion H; subst. simpl. econstructor; eauto.
+  match goal with E : nchildren _ = _ |- _ => rewrite E end.
+  apply Forall2_map_l. eapply Forall2_Forall_impl; [eassumption|].
+  eapply Forall_impl; [|exact IH]. intros c Hc a Ha. apply Hc; auto.
+Qed.
+
+Lemma Forall2_Forall_l {A B} (R : A -> B -> Prop) (Q : A -> Prop) l l' :
+  Forall2 R l l' -> Forall (fun b => forall a, R a b -> Q a) l' -> Forall Q l.
+Proof. induction 1; intros HF; inversion HF; subst; constructor; auto. Qed.
+
+Lemma SRep_Rep0 (t : arena) : forall r sk p d, SRep t p d sk r -> Rep0 t p d sk.
+Proof.
+  induction r as [nm ln cm cs IH] using ltree_ind'. intros sk p d H.
+  inversion H; subst. econstructor; eauto.
+  eapply Forall2_Forall_l; [eassumption|].
+  eapply Forall_impl; [|exact IH]. intros c Hc a Ha. eapply Hc; eauto.
+Qed.
+
+Lemma SRep_transfer (t t' : arena) :
+  (forall i n, nth_error t i = Some n -> exists n', nth_error t' i = Some n' /\ same_but_edges n n') ->
+  forall r sk p d, SRep t p d sk r -> SRep t' p d sk r.
+Proof.
+  intros Hs. induction r as [nm ln cm cs IH] using ltree_ind'. intros sk p d H.
+  inversion H; subst.
+  match goal with Hn : nth_error t _ = Some _ |- _ => destruct (Hs _ _ Hn) as [n' [Hn' Hsame]] end.
+  destruct Hsame as (S1 & S2 & S3 & S4 & S5 & S6 & S7 & S8).
+  econstructor; try exact Hn'; try congruence.
+  eapply Forall2_Forall_impl; [eassumption|].
+  eapply Forall_impl; [|exact IH]. intros c Hc a Ha. apply Hc; auto.
+Qed.
+
+Lemma SRep_nodes : forall r (pre post : arena) p d,
+  SRep (pre ++ nodes_of p d (length pre) r ++ post) p d (skel (length pre) r) r.
+Proof.
+  induction r as [nm ln cm cs IH] using ltree_ind'. intros pre post p d.
+  rewrite nodes_of_eq, skel_eq. rewrite Nat.add_1_r.
+  set (k := length pre).
+  set (n0 := mkNode k nm p (child_ids (S k) cs) ln cm [] d false).
+  apply SRep_node with (n := n0); try reflexivity.
+  { rewrite <- app_comm_cons. apply nth_app_mid. }
+  replace (pre ++ (n0 :: nodes_list (Some k) (S d) (S k) cs) ++ post)
+    with ((pre ++ [n0]) ++ nodes_list (Some k) (S d) (S k) cs ++ post)
+    by (rewrite <- app_assoc; reflexivity).
+  assert (Hlen : S k = length (pre ++ [n0])) by (rewrite app_length; simpl; unfold k; lia).
+  rewrite Hlen. generalize (pre ++ [n0]). clear Hlen. revert post.
+  induction IH as [|c cs Hc _ IHcs]; intros post pre'; [constructor|].
+  cbn [nodes_list skel_list]. constructor.
+  - rewrite <- app_assoc. apply Hc.
+  - specialize (IHcs post (pre' ++ nodes_of (Some k) (S d) (length pre') c)).
+    rewrite app_length, nodes_of_length, <- app_assoc in IHcs. rewrite <- app_assoc. exact IHcs.
+Qed.
+
+Corollary SRep_build r : SRep (build r) None 0 (skel 0 r) r.
+Proof.
+  rewrite build_spec. pose proof (SRep_nodes r [] [] None 0) as H.
+  simpl in H. rewrite app_nil_r in H. exact H.
+Qed.
+
+(* ---- Good (ParserProps): ids, liveness, no child-side lengths yet, parents point backwards -------- *)
+Definition GoodSeg (k : nat) (l : list node) : Prop :=
+  forall j n, nth_error l j = Some n ->
+    ndeleted n = false /\ nid n = k + j /\ nedges n = [] /\ (forall p, nparent n = Some p -> p < k + j).
+
+Lemma GoodSeg_app k a b : GoodSeg k a -> GoodSeg (k + length a) b -> GoodSeg k (a ++ b).
+Proof.
+  intros Ha Hb j n Hn. destruct (Nat.lt_ge_cases j (length a)).
+  - rewrite nth_error_app1 in Hn; auto.
+  - rewrite nth_error_app2 in Hn by lia. destruct (Hb _ _ Hn) as (A & B & C & D).
+    repeat split; auto; try lia. intros p Hp. specialize (D p Hp). lia.
+Qed.
+
+Lemma GoodSeg_cons k x l :
+  ndeleted x = false -> nid x = k -> nedges x = [] -> (forall p, nparent x = Some p -> p < k) ->
+  GoodSeg (S k) l -> GoodSeg k (x :: l).
+Proof.
+  intros A B C D Hl [|j] n Hn; simpl in Hn.
+  - inversion Hn; subst. rewrite Nat.add_0_r. auto.
+  - destruct (Hl _ _ Hn) as (A' & B' & C' & D'). repeat split; auto; try lia.
+    intros p Hp. specialize (D' p Hp). lia.
+Qed.
+
+Lemma nodes_of_good : forall r p d k, (forall p0, p = Some p0 -> p0 < k) -> GoodSeg k (nodes_of p d k r).
+Proof.
+  induction r as [nm ln cm cs IH] using ltree_ind'. intros p d k Hp.
+  rewrite nodes_of_eq. apply GoodSeg_cons; simpl; auto.
+  assert (Hk : k < S k) by lia. revert Hk. generalize (S k).
+  induction IH as [|c cs Hc _ IHcs]; intros k' Hk.
+  - intros [|j] n Hn; discriminate.
+  - cbn [nodes_list]. apply GoodSeg_app.
+    + apply Hc. intros p0 E. inversion E; subst. lia.
+    + rewrite nodes_of_length. apply IHcs. lia.
+Qed.
+
+Lemma build_good r : Good (build r).
+Proof.
+  rewrite build_spec. intros i n Hn.
+  apply (nodes_of_good r None 0 0); auto. intros p0 E; discriminate.
+Qed.
+
+(* the finishing pass succeeds on Good arenas *)
+Lemma finish_ok (t1 : arena) : Good t1 -> exists t', finish t1 = Ok t'.
+Proof.
+  intros HG. rewrite finish_unfold, (map_nid_seq HG).
+  assert (Hgen : forall m k tk, k + m = length t1 -> FinInv t1 k tk ->
+                 exists t', foldM fin_step (seq k m) tk = Ok t').
+  { induction m as [|m IHm]; intros k tk Hkm HI; simpl; [eauto|].
+    assert (Hk : k < length t1) by lia.
+    destruct (nth_error_lt_Some _ Hk) as [n Hn].
+    destruct HI as [Hlen HI0]. pose proof (conj Hlen HI0 : FinInv t1 k tk) as HI.
+    destruct (HI0 _ _ Hn) as [n' [Hn' [Hs _]]].
+    destruct (HG _ _ Hn) as (Gd & _ & _ & Gp).
+    destruct Hs as (S1 & S2 & S3 & S4 & S5 & S6 & S7 & S8).
+    assert (Hstep : exists tk', fin_step tk k = Ok tk').
+    { unfold fin_step, get. rewrite Hn'. rewrite S6, Gd. simpl bind.
+      destruct (npedge n'); [|eauto]. destruct (nparent n') as [p|] eqn:Ep; [|eauto].
+      specialize (Gp _ (eq_sym S2)).
+      assert (Hp : p < length t1) by lia.
+      destruct (nth_error_lt_Some _ Hp) as [np Hnp].
+      destruct (HI0 _ _ Hnp) as [np' [Hnp' [Hsp _]]].
+      destruct (HG _ _ Hnp) as (Gdp & _).
+      destruct Hsp as (_ & _ & _ & _ & _ & T6 & _).
+      unfold upd, get. rewrite Hnp', T6, Gdp. simpl. eauto. }
+    destruct Hstep as [tk' Hstep]. rewrite Hstep. simpl bind.
+    apply IHm; [lia|]. eapply fin_step_inv; eauto. }
+  apply Hgen; [reflexivity|].
+  split; auto. intros i n Hn. exists n. split; auto. split; [repeat split; auto|].
+  intros c. destruct (HG _ _ Hn) as (_ & _ & -> & _). reflexivity.
 Qed.
 
 End RoundTrip.
